@@ -75,6 +75,9 @@ def run(ctx) -> None:
     ctx.rule("R6", "tag tables: recognised tags are keys, the maps invert each other")
     ctx.rule("R7", "no integer field whose domain contains 0 is used in boolean context while reading a version")
     ctx.rule("R8", "omission logic: only non-literal segments take part in a group's all-zero test; the reader never refuses a renderable calendar value")
+    ctx.rule("R9", "prerequisite: literal text of a pattern is recognised literally (C07/R1-R3), otherwise a rendering is not accepted by its own pattern")
+    from sa.report import run_prerequisite
+    run_prerequisite(ctx, "C07", ("R1", "R2", "R3"), "R9")
 
     pats, fields, fmts = part_tables(ctx)
     vinfo = prog.klass("version.V2VersionInfo")
